@@ -8,6 +8,8 @@ import (
 	"regexp"
 	"strings"
 	"time"
+
+	"github.com/monstermichl/typeshell/transpiler"
 )
 
 func init() { register("C16", checkC16) }
@@ -682,6 +684,28 @@ func checkC16(c *Check) {
 				problems = append(problems, fmt.Sprintf("converter trace: %d unclosed %s", d, k))
 			}
 		}
+		// the same program emitted as the SECOND target of one transpiler object (what tsh does for -t a -t b): the
+		// script that comes second must be as well formed as the one that comes first
+		if i%3 == 0 {
+			if s2, ok := secondOnOneObject(mainPath, Batch, Bash); ok {
+				c.Count("second_target_scripts", 1)
+				if ok2, msg := bashSyntaxCheck(s2); !ok2 {
+					problems = append(problems, "bash script emitted second on one transpiler object: bash -n: "+oneLine(msg))
+					files["second.sh"] = s2
+				}
+			}
+			if s2, ok := secondOnOneObject(mainPath, Bash, Batch); ok {
+				c.Count("second_target_scripts", 1)
+				l2 := lintBatch(s2)
+				for _, p := range l2.Problems {
+					if strings.HasPrefix(p, "block structure (parser):") || strings.Contains(p, "innermost open loop") || strings.Contains(p, "outside the if construct") {
+						continue // judged on the first emission above
+					}
+					problems = append(problems, "batch script emitted second on one transpiler object: "+p)
+					files["second.bat"] = s2
+				}
+			}
+		}
 		if len(problems) > 0 {
 			c.Violation(pg.key, strings.Join(problems, "; "), files)
 			return
@@ -695,6 +719,37 @@ func checkC16(c *Check) {
 			c.Sample(map[string]interface{}{"key": pg.key, "source": clip(srcs["main.tsh"], 800), "batch_labels": lint.Labels, "batch_gotos": lint.Gotos, "loop_regions": lint.Loops, "if_regions": lint.Ifs})
 		}
 	})
+}
+
+// secondOnOneObject transpiles path for target first and then for target second on ONE transpiler object (fresh
+// converters) and returns the second script; ok is false when either call fails, panics or hangs (C13/C14 judge those).
+func secondOnOneObject(path string, first, second Target) (string, bool) {
+	type out struct {
+		s  string
+		ok bool
+	}
+	ch := make(chan out, 1)
+	go func() {
+		var o out
+		defer func() {
+			if r := recover(); r != nil {
+				o.ok = false
+			}
+			ch <- o
+		}()
+		tr := transpiler.New()
+		if _, err := tr.Transpile(path, newConverter(first)); err != nil {
+			return
+		}
+		s, err := tr.Transpile(path, newConverter(second))
+		o.s, o.ok = s, err == nil
+	}()
+	select {
+	case o := <-ch:
+		return o.s, o.ok
+	case <-time.After(30 * time.Second):
+		return "", false
+	}
 }
 
 var reQuoted = regexp.MustCompile(`"[^"]*"`)
